@@ -661,7 +661,14 @@ def mutate(t, rng):
         find(t, ())
         if not lams:
             return None
-        path, lam = rng.pick(lams)
+        # prefer abstractions that are the argument of a constant (collect, all, exists, The, ...)
+        def parent_is_const_app(path):
+            x = t
+            for i, step in enumerate(path[:-1]):
+                x = x.fun if step == 0 else (x.arg if step == 1 else x.body)
+            return bool(path) and path[-1] == 1 and x.is_comb() and x.fun.is_const()
+        pref = [e for e in lams if parent_is_const_app(e[0])]
+        path, lam = rng.pick(pref) if pref and rng.chance(0.8) else rng.pick(lams)
         try:
             T = lam.get_type()
         except Exception:
